@@ -467,3 +467,229 @@ def c14(run):
                 "seeded orientations/reversal flags and shuffled forest/coforest order; matrix, transpose and forest flag compared with the "
                 "model; random graphs up to 120/300 edges with broken forests; constructed matrices sent through recognition and the "
                 "returned graph multiplied out. Non-trivial = judged ok; distinct by op line." % (maxn, maxe), extra={"exhaustive": True})
+
+
+# ------------------------------------------------------------------------------------------------------------------
+# C08 series-parallel
+# ------------------------------------------------------------------------------------------------------------------
+
+def sp_grow(rng, steps, ternary):
+    """SP matrix grown by random extension steps; returns (m, n, entries)"""
+    rows = []   # list of lists
+    n = 0
+    for _ in range(steps):
+        k = rng.randrange(6)
+        isrow = rng.random() < 0.5
+        if isrow:
+            if k == 0 or n == 0:
+                rows.append([0] * n)
+            elif k <= 2:
+                r = [0] * n; r[rng.randrange(n)] = rng.choice((1, -1)) if ternary else 1; rows.append(r)
+            elif rows:
+                s = rng.choice((1, -1)) if ternary else 1
+                rows.append([s * x for x in rng.choice(rows)])
+            else:
+                rows.append([0] * n)
+        else:
+            m = len(rows)
+            if k == 0 or m == 0:
+                col = [0] * m
+            elif k <= 2:
+                col = [0] * m; col[rng.randrange(m)] = rng.choice((1, -1)) if ternary else 1
+            elif n:
+                j = rng.randrange(n); s = rng.choice((1, -1)) if ternary else 1
+                col = [s * r[j] for r in rows]
+            else:
+                col = [0] * m
+            for r, x in zip(rows, col):
+                r.append(x)
+            n += 1
+    m = len(rows)
+    # random line permutation
+    rp = list(range(m)); cp = list(range(n)); rng.shuffle(rp); rng.shuffle(cp)
+    e = [rows[i][j] for i in rp for j in cp]
+    return m, n, e
+
+
+@check("C08")
+def c08(run):
+    quick = run.tier == "quick"
+    rng = run.rng
+    lines = []
+    outsets = [1, 3, 5, 7, 9, 11, 13, 15, 2, 6, 14, 8, 4, 0]
+    tsh = shapes(3, 3) if quick else shapes(3, 4) + [(4, 3)]
+    bsh = [(4, 4), (3, 4), (4, 3)] if quick else [(4, 4), (4, 5), (5, 4)]
+    for (m, n) in tsh:
+        for e in all_mats(m, n, (-1, 0, 1)):
+            mt = mat_tokens(m, n, e)
+            o = rng.choice(outsets)
+            lines.append("sp ter test %d -1 %s" % (o, mt))
+            lines.append("sp ter dec %d -1 %s" % (rng.choice(outsets) | rng.choice((0, 16)), mt))
+            if any(x < 0 for x in e):
+                continue
+            lines.append("sp bin test %d -1 %s" % (rng.choice(outsets), mt))
+    for (m, n) in bsh:
+        for e in all_mats(m, n, (0, 1)):
+            mt = mat_tokens(m, n, e)
+            lines.append("sp bin %s %d -1 %s" % (rng.choice(("test", "dec")), rng.choice(outsets), mt))
+    run.batch("exhaustive-small", lines, "plain")
+    # every output subset on a sample; maxNumReductions; both flavours (normal hash range / forced collisions)
+    sample = []
+    for _ in range(600 if quick else 8000):
+        m, n = rng.randint(2, 6), rng.randint(2, 6)
+        tern = rng.random() < 0.5
+        e = rand_mat(rng, m, n, (1, -1) if tern else (1,), rng.choice((0.3, 0.5, 0.7)))
+        mt = mat_tokens(m, n, e)
+        kind = "ter" if tern else "bin"
+        for o in range(32):
+            fn = "dec" if (o & 16) else rng.choice(("test", "dec"))
+            mx = -1 if fn == "test" or rng.random() < 0.6 else rng.choice((0, 1, 2))
+            sample.append("sp %s %s %d %d %s" % (kind, fn, o | (32 if rng.random() < .5 else 0), mx, mt))
+    for _ in range(300 if quick else 4000):
+        tern = rng.random() < 0.5
+        m, n, e = sp_grow(rng, rng.randint(4, 40 if quick else 200), tern)
+        if rng.random() < 0.5 and m >= 3 and n >= 3:
+            # plant a wheel M_3 (cycle) on random positions
+            rs = rng.sample(range(m), 3); cs = rng.sample(range(n), 3)
+            for a in range(3):
+                for b in range(3):
+                    e[rs[a] * n + cs[b]] = 1 if (a == b or (a + 1) % 3 == b) else 0
+        sample.append("sp %s %s %d -1 %s" % ("ter" if tern else "bin", rng.choice(("test", "dec")), rng.choice((15, 7, 31, 23, 1, 3)), mat_tokens(m, n, e)))
+    run.batch("output-subsets+grown", sample, "asan")
+    try:
+        run.batch("forced-hash-collisions", sample[: len(sample) // 4] + rng.sample(lines, min(len(lines), 8000 if quick else 60000)), "hash",
+                  args=("--op-timeout", "2"))
+    except cmrbuild.BuildError as ex:
+        raise
+    return dict(rule="exhaustive: every {-1,0,1} matrix up to 3x3 (thorough 3x4/4x3) through CMRspTestTernary/CMRspDecomposeTernary (and the "
+                "binary functions on the 0/1 ones), every 0/1 matrix 4x4/3x4/4x3 (thorough up to 4x5/5x4), with a seeded subset of optional "
+                "outputs; every one of the 32 output subsets x maxNumReductions on seeded 2x2..6x6 matrices; SP matrices grown by random "
+                "extension sequences (up to 40/200 lines) with and without a planted wheel; the same ops against a build whose hash range is "
+                "forced to 7 (almost every pair collides). Judged: verdict = exhaustive reduction search (= greedy), every reported reduction "
+                "valid in order, reduced submatrix = what they leave and irreducible, violator is M_2/M_3'/cycle, separation is a genuine "
+                "2-separation of the reduced matrix, verdict written for every output subset. Non-trivial = judged ok; distinct by op line.",
+                extra={"exhaustive": True})
+
+
+# ------------------------------------------------------------------------------------------------------------------
+# C09 Camion
+# ------------------------------------------------------------------------------------------------------------------
+
+@check("C09")
+def c09(run):
+    quick = run.tier == "quick"
+    rng = run.rng
+    lines = []
+    sh = shapes(3, 3) + [(2, 4), (4, 2)] if quick else shapes(3, 4) + [(4, 3), (4, 2), (4, 1)]
+    for (m, n) in sh:
+        for e in all_mats(m, n, (-1, 0, 1)):
+            lines.append("camionx 1 %s" % mat_tokens(m, n, e))
+    run.batch("exhaustive-small", lines, "plain")
+    more = []
+    for _ in range(1500 if quick else 30000):
+        m, n = rng.choice([(4, 4), (4, 5), (5, 4), (5, 5), (3, 6), (6, 3), (6, 6), (2, 6), (6, 2)])
+        s = rand_mat(rng, m, n, (1,), rng.choice((0.35, 0.5, 0.7)))
+        e = [x * rng.choice((1, -1)) for x in s]
+        more.append("camionx %d %s" % (rng.randint(0, 1), mat_tokens(m, n, e)))
+    for _ in range(200 if quick else 3000):
+        # block structured, tall and wide
+        m, n = rng.randint(5, 40), rng.randint(5, 40)
+        e = [0] * (m * n)
+        nb = rng.randint(1, 5)
+        for i in range(m):
+            b = rng.randrange(nb)
+            for j in range(n):
+                if j % nb == b and rng.random() < 0.5:
+                    e[i * n + j] = rng.choice((1, -1))
+        more.append("camionx 1 %s" % mat_tokens(m, n, e))
+    for (m, n, e) in graph_instances(rng, 200 if quick else 3000, 40, True):
+        e2 = [x * rng.choice((1, 1, 1, -1)) for x in e]
+        more.append("camionx 1 %s" % mat_tokens(m, n, e2))
+    run.batch("signings+blocks", more, "asan")
+    return dict(rule="exhaustive: every {-1,0,1} matrix up to 3x3, 2x4, 4x2 (thorough up to 3x4/4x3) through test, sign, test-of-signed and "
+                "sign-of-signed in one op; random signings of 4x4..6x6 supports, block-structured tall/wide matrices up to 40x40, network "
+                "matrices with random sign corruptions. Judged: support and shape kept, output passes the test, signing idempotent, test = "
+                "(signing leaves the matrix unchanged), TU => signed, regular support => signed output TU (oracles up to 6x6), violator square "
+                "with two nonzeros per line and det +-2. Non-trivial = judged ok; distinct by op line.", extra={"exhaustive": True},
+                assumptions=["Camion's theorem (regular support: TU iff Camion-signed) is tested against the oracles, not proved"])
+
+
+# ------------------------------------------------------------------------------------------------------------------
+# C17 balanced
+# ------------------------------------------------------------------------------------------------------------------
+
+@check("C17")
+def c17(run):
+    quick = run.tier == "quick"
+    rng = run.rng
+    lines = []
+    sh = shapes(3, 3) + [(2, 4), (4, 2)] if quick else shapes(3, 4) + [(4, 3), (4, 2)]
+    for (m, n) in sh:
+        for e in all_mats(m, n, (-1, 0, 1)):
+            mt = mat_tokens(m, n, e)
+            lines.append("balanced %d %d %d 1 %s" % (rng.choice((0, 1)), rng.randint(0, 1), rng.randint(0, 1), mt))
+    run.batch("exhaustive-small", lines, "plain")
+    more = []
+    for _ in range(2000 if quick else 40000):
+        m, n = rng.randint(2, 7), rng.randint(2, 7)
+        e = rand_mat(rng, m, n, (1, -1), rng.choice((0.3, 0.5)))
+        mt = mat_tokens(m, n, e)
+        sp = rng.randint(0, 1)
+        alg = rng.choice((0, 1))
+        more.append("balanced %d %d 0 %d %s" % (alg, sp, rng.randint(0, 1), mt))
+        more.append("balanced %d %d 1 %d %s" % (alg, sp, rng.randint(0, 1), mt))
+    for _ in range(300 if quick else 3000):
+        m, n = rng.randint(1, 4), rng.randint(1, 4)
+        e = rand_mat(rng, m, n, (-2, -1, 1, 2, 3), 0.6)
+        for preset in (0, 1):
+            more.append("balanced %d %d %d 1 %s" % (rng.choice((0, 1)), rng.randint(0, 1), preset, mat_tokens(m, n, e)))
+    for _ in range(100 if quick else 1000):
+        m, n = rng.randint(1, 5), rng.randint(1, 5)
+        e = rand_mat(rng, m, n, (1, -1), 0.5)
+        more.append("balanced 2 %d %d 1 %s" % (rng.randint(0, 1), rng.randint(0, 1), mat_tokens(m, n, e)))
+    run.batch("random+presets+graph-alg", more, "asan")
+    return dict(rule="exhaustive: every {-1,0,1} matrix up to 3x3, 2x4, 4x2 (thorough 3x4/4x3) with seeded algorithm (auto/submatrix), "
+                "series-parallel preprocessing flag and preset of the verdict variable; seeded 2x2..7x7 matrices under both presets (an "
+                "unwritten verdict shows as a dependence on the preset); integer matrices with entries outside {-1,0,1}; the graph algorithm "
+                "(must give an error status). Judged against the definition (all square submatrices with two nonzeros per line), violator "
+                "shape validated. Non-trivial = judged ok; distinct by op line.", extra={"exhaustive": True})
+
+
+# ------------------------------------------------------------------------------------------------------------------
+# C16 equimodular
+# ------------------------------------------------------------------------------------------------------------------
+
+@check("C16")
+def c16(run):
+    quick = run.tier == "quick"
+    rng = run.rng
+    lines = []
+    doms = [((2, 2), (-2, -1, 0, 1, 2)), ((2, 3), (-1, 0, 1, 2)), ((3, 2), (-1, 0, 1, 2)), ((1, 3), (-2, -1, 0, 1, 2)), ((3, 1), (-2, -1, 0, 1, 2))]
+    if not quick:
+        doms += [((3, 3), (0, 1, 2)), ((2, 3), (-2, -1, 0, 1, 2)), ((3, 2), (-2, -1, 0, 1, 2))]
+    for (m, n), vals in doms:
+        for e in all_mats(m, n, vals):
+            mt = mat_tokens(m, n, e)
+            lines.append("equimod e 0 %s" % mt)
+            lines.append("equimod %s %d %s" % (rng.choice(("es", "u", "us", "e")), rng.choice((0, 1, 2, 3)), mt))
+    for (m, n) in [(0, 0), (0, 2), (2, 0), (1, 1)]:
+        for fn in ("e", "es", "u", "us"):
+            lines.append("equimod %s 0 %s" % (fn, mat_tokens(m, n, [0] * (m * n))))
+    run.batch("exhaustive-small", lines, "plain")
+    more = []
+    for _ in range(3000 if quick else 50000):
+        m, n = rng.randint(1, 4), rng.randint(1, 4)
+        e = rand_mat(rng, m, n, (-3, -2, -1, 1, 1, 1, 2, 3, 4), rng.choice((0.5, 0.8)))
+        more.append("equimod %s %d %s" % (rng.choice(("e", "e", "es", "u", "us")), rng.choice((0, 0, 1, 2, 4)), mat_tokens(m, n, e)))
+    for _ in range(200 if quick else 2000):
+        m, n = rng.randint(1, 4), rng.randint(1, 4)
+        big = rng.choice((2 ** 15, 2 ** 16 + 1, 2 ** 30, 2 ** 31 - 1, 46341, 65536))
+        e = [rng.choice((0, 1, -1, big, -big, big - 1)) for _ in range(m * n)]
+        more.append("equimod %s 0 %s" % (rng.choice(("e", "es", "u")), mat_tokens(m, n, e)))
+    run.batch("random+near-overflow", more, "asan")
+    return dict(rule="exhaustive: every integer matrix with entries in {-2..2} of shape 2x2, 1x3, 3x1 and in {-1,0,1,2} of shape 2x3, 3x2 "
+                "(thorough: more) through CMRequimodularTest with and without a requested k and through the strong / unimodular variants; "
+                "degenerate shapes; seeded 1x1..4x4 matrices with entries up to 4 (k>1 frequent); entries near 2^15, 2^16, 2^31 (overflow "
+                "boundary: the only admissible answers are the exact one or err:OVERFLOW). Judged against the exact-arithmetic model "
+                "(rank, gcd of basis minors, Cramer solution, TU oracle) for every column basis. Non-trivial = judged ok; distinct by op line.",
+                extra={"exhaustive": True})
